@@ -153,3 +153,37 @@ Theorem c19_visit_item_reads_are_source :
   [("nItemLoc.read", [GVar "t"; GVar "false"]); ("nItemLoc.read", [GVar "t"; GVar "withValue"])].
 Proof. exact DecVisit.visit_item_reads. Qed.
 Print Assumptions c19_visit_item_reads_are_source.
+
+(* ---------------------------------------------------------------------------------------------- *)
+(* WHOLE SEQUENCES OF CALLS (LazySeq.v): what one call loaded stays in memory for the next.  The ReadAt calls of every
+   call of a run of lookups and mutations after a re-open are compared with LazySeq.srun_reads on every run. *)
+From GK Require Import LazySeq LazySeqProofs.
+
+Theorem c19_sequence_key_only : forall cmp t0 ops m,
+  forallb key_only_op ops = true ->
+  Forall (Forall (fun r => in_node t0 r \/ in_keypart t0 r)) (srun_reads cmp t0 m ops).
+Proof. exact LazySeqProofs.seq_key_only. Qed.
+Print Assumptions c19_sequence_key_only.
+
+Theorem c19_sequence_never_reads_values : forall cmp f t0 ops m,
+  rep f t0 -> records_disjoint t0 -> forallb key_only_op ops = true ->
+  Forall (Forall (fun r => forall q it, In (q, it) (item_locs t0) -> rd_disjoint r (value_range q it))) (srun_reads cmp t0 m ops).
+Proof. exact LazySeqProofs.seq_never_reads_values. Qed.
+Print Assumptions c19_sequence_never_reads_values.
+
+Theorem c19_lookup_twice_reads_nothing : forall cmp t m k,
+  exists r1, srun_reads cmp t m [SGet k false; SGet k false] = [r1; []].
+Proof. exact LazySeqProofs.lookup_twice_reads_nothing. Qed.
+Print Assumptions c19_lookup_twice_reads_nothing.
+
+Theorem c19_first_call_is_single_call_model : forall cmp t k v prio,
+  srun_reads cmp t [] [SSet k v prio] = [set_treads cmp t k (Some v) prio] /\
+  srun_reads cmp t [] [SDel k] = [del_treads cmp t k].
+Proof. exact LazySeqProofs.first_call_is_lazymut. Qed.
+Print Assumptions c19_first_call_is_single_call_model.
+
+Theorem c19_sequence_reads_from_file : forall cmp f t b ops,
+  rep f t -> persisted t -> below t b -> (Treap.size t <= S (List.length f))%nat ->
+  seq_reads_file cmp f (root_loc t) b ops = Some (srun_reads cmp t [] ops).
+Proof. exact LazySeqProofs.seq_reads_file_spec. Qed.
+Print Assumptions c19_sequence_reads_from_file.
